@@ -133,6 +133,13 @@ class Rig:
     def on_boundary(self):
         now = self.tw.world.now()
         ups = self.uploads()
+        # a user who is not a friend and has no unfinished transfer left is untracked and its (weakly held) user
+        # object goes away: what the library knew about that user is forgotten at some point from here on, until
+        # the server tells it again
+        for name, k in self.known.items():
+            if not k['friend'] and k['status'] not in (None, 'ambiguous') and \
+                    not any(t.username == name and not t.is_finalized() for t in self.tw.client.transfers.transfers):
+                k['status'] = 'ambiguous'
         active = [t for t in ups if t.state.VALUE in (TransferState.State.INITIALIZING, TransferState.State.UPLOADING)]
         newly = [t for t in active if id(t) not in self.active_prev]
         for t in newly:
@@ -221,6 +228,8 @@ class Rig:
                     except Exception:
                         pass
                 tw.world.op('u', f'requeue-{ev[1]}', do, record=False)
+        elif kind == 'wait':
+            pass          # only time passes (a few management cycles)
         elif kind == 'slots':
             tw.client.settings.transfers.limits.upload_slots = ev[1]
             self.slot_log.append((tw.world.now(), ev[1]))
@@ -285,6 +294,18 @@ def histories(tier):
                         out.append({'slots': slots, 'users': users, 'hist': [('q', u0, FILES[0]), ('q', u0, FILES[1]), x, y]})
                         out.append({'slots': slots, 'users': users,
                                     'hist': [('q', u0, FILES[0]), ('q', u0, FILES[1]), ('q', users[-1], FILES[0]), x, y]})
+            # the limit is lowered and raised back while uploads wait (nothing else requests a cycle)
+            for lo, hi in ((0, 1), (1, 2), (0, 2)):
+                if slots == hi:
+                    out.append({'slots': slots, 'users': users, 'hist': qs[:3] + [('slots', lo), ('slots', hi)]})
+                    out.append({'slots': slots, 'users': users, 'hist': qs[:2] + [('slots', lo), qs[2], ('slots', hi)]})
+            # a user with a finished transfer and a queued one (tracking must not be dropped: an offline user stays
+            # offline for the scheduler)
+            for u in users:
+                out.append({'slots': max(slots, 1), 'users': users,
+                            'hist': [('q', u, FILES[0]), ('abort', u), ('q', u, FILES[1]), ('wait',), ('wait',)]})
+                out.append({'slots': max(slots, 1), 'users': users,
+                            'hist': [('q', u, FILES[0]), ('status', u, 0), ('abort', u), ('q', u, FILES[1]), ('wait',), ('wait',)]})
             # interleaved: queue, event, queue
             for e in others[:6]:
                 out.append({'slots': slots, 'users': users, 'hist': [qs[0], e, qs[1], qs[-1], ('done', users[0])]})
